@@ -44,3 +44,139 @@ Print Assumptions C14_route_refresh_roundtrip.
 
 Example C14_rr_nonvacuous : rr_construct 128 2 0 128 = Ok (marker16 ++ [0; 23; 128; 0; 2; 0; 128]).
 Proof. vm_compute. reflexivity. Qed.
+
+(* ===================================================================================== *)
+(** OPEN (yabgp/message/open.py; model/YOpen.v, spec/RefOpen.v, proof/OpenProofs.v).
+
+    [open_parse] is the parser with the return statement moved out of [if self.opt_para_len:]
+    (build/proposed/c14_open_parse_return.diff); [open_parse_unpatched] is /repo before that
+    patch.  A successful parse yields the pair (attributes left on the Open object, return
+    value).  Dictionary form of the capability set: record [capa_dict] of YOpen.v. *)
+From YV Require Import model.YOpen spec.RefOpen proof.OpenProofs.
+
+(** Round trip.  For every AS number from 1 (the constructor itself refuses anything above
+    2^32-1 when it has to encode it, and [open_construct .. = Ok m] is "the constructor accepts
+    the configuration": all AFI/SAFI values in range, at most 255 octets of capabilities, hold
+    <= 65535, id < 2^32), the constructed message is a well-framed type-1 message whose body
+    parses to version 4, the TRUE AS (also when AS_TRANS went on the wire), the hold time, the
+    identifier and the dictionary [cfg_dict asn c]:
+      four_bytes_as  iff asn > 65535 or configured;   afi_safi = the configured list (key absent
+      when the list is empty or not configured);   route_refresh / cisco_route_refresh /
+      enhanced_route_refresh as configured;   add_path = [(ipv4, mode)] iff configured;
+      ext_nexthop = the configured list (present, possibly empty, iff the key is configured);
+      nothing else.
+    With no capability at all (optional parameter length 0) the result is the same record with the
+    empty dictionary, both as attributes and as return value. *)
+Theorem C14_open_roundtrip : forall asn hold id c m,
+  1 <= asn ->
+  open_construct 4 asn hold id c = Ok m ->
+  exists body, unframe m = Some (c_MSG_OPEN, body) /\
+    open_parse body = Ok (mkopen 4 asn hold id (cfg_dict asn c), Some (mkopen 4 asn hold id (cfg_dict asn c))).
+Proof. exact open_roundtrip. Qed.
+Print Assumptions C14_open_roundtrip.
+
+(** the hypotheses are satisfiable: 4-octet AS with AS_TRANS on the wire, and an OPEN without
+    optional parameters *)
+Example C14_open_roundtrip_nonvacuous :
+  open_construct 4 70000 180 167772161
+    (mkcfg (Some [(1, 1); (1, 128)]) true true false (Some [(1, 1, 2)]) 3 true) =
+  Ok (marker16 ++ [0; 83; 1;  4; 91; 160; 0; 180; 10; 0; 0; 1; 54;
+                   2; 6; 1; 4; 0; 1; 0; 1;  2; 6; 1; 4; 0; 1; 0; 128;  2; 2; 128; 0;  2; 2; 2; 0;
+                   2; 6; 65; 4; 0; 1; 17; 112;  2; 8; 5; 6; 0; 1; 0; 1; 0; 2;
+                   2; 6; 69; 4; 0; 1; 1; 3;  2; 2; 70; 0]) /\
+  open_construct 4 65001 0 1 (mkcfg None false false false None 0 false) =
+  Ok (marker16 ++ [0; 29; 1;  4; 253; 233; 0; 0; 0; 0; 0; 1; 0]).
+Proof. split; vm_compute; reflexivity. Qed.
+
+(** the unpatched parser violates the round trip exactly as far as the return value goes: an
+    OPEN without optional parameters leaves the right attributes but returns None *)
+Theorem C14_open_roundtrip_unpatched_refuted :
+  exists asn hold id c m body, 1 <= asn <= 4294967295 /\
+    open_construct 4 asn hold id c = Ok m /\ unframe m = Some (c_MSG_OPEN, body) /\
+    open_parse_unpatched body = Ok (mkopen 4 asn hold id (cfg_dict asn c), None).
+Proof. exact open_roundtrip_unpatched_refuted. Qed.
+Print Assumptions C14_open_roundtrip_unpatched_refuted.
+
+(** patched and unpatched parser agree on errors and on the attributes, for every input *)
+Theorem C14_open_parse_attributes_same : forall b m,
+  res_map fst (open_parse_gen b m) = res_map fst (open_parse m).
+Proof. exact open_parse_gen_attrs. Qed.
+Print Assumptions C14_open_parse_attributes_same.
+
+(** Decoding agrees with the independent RFC encoder: for EVERY list of optional parameters, each
+    holding any list of capabilities (any subset, any order, repetitions, any packaging, no bound
+    on the lengths of the lists other than the one-octet length fields of the format itself:
+    [params_wf] = every field value in its range, unknown codes outside the assigned ones, add-path
+    only for known families) the message is well framed and the parser returns version 4, hold,
+    id, and (true AS, dictionary) = [decode_caps my_as (concat params)], i.e. the left fold of
+    [hl_apply] (OpenProofs.v) over the capabilities in wire order, independent of the packaging. *)
+Theorem C14_open_decodes_reference : forall my_as hold id params,
+  1 <= my_as <= 65535 -> hold <= 65535 -> id <= 4294967295 -> params_wf params ->
+  unframe (ref_open 4 my_as hold id params) = Some (c_MSG_OPEN, ref_open_body 4 my_as hold id params) /\
+  open_parse (ref_open_body 4 my_as hold id params) =
+    Ok (mkopen 4 (fst (decode_caps my_as (concat params))) hold id (snd (decode_caps my_as (concat params))),
+        Some (mkopen 4 (fst (decode_caps my_as (concat params))) hold id (snd (decode_caps my_as (concat params))))).
+Proof. exact open_decodes_reference. Qed.
+Print Assumptions C14_open_decodes_reference.
+
+Example C14_open_decodes_reference_nonvacuous :
+  params_wf [[Mp 1 1; As4 70000; RouteRefresh]; []; [AddPath [(1, 1, 3); (2, 1, 1)]; Llgr [(1, 1, 128, 86400)]];
+             [Unknown 3 [1; 2]; GracefulRestart 8 120 [(1, 1, 128)]; ExtNexthop [(1, 1, 2)]; Unknown 3 []]] /\
+  decode_caps 23456 [Mp 1 1; As4 70000; RouteRefresh; AddPath [(1, 1, 3); (2, 1, 1)]; Llgr [(1, 1, 128, 86400)];
+                     Unknown 3 [1; 2]; GracefulRestart 8 120 [(1, 1, 128)]; ExtNexthop [(1, 1, 2)]; Unknown 3 []] =
+  (70000, mkcd true (Some [(1, 1)]) true false true false false (Some [(1, 1, 3); (2, 1, 1)])
+                (Some [(1, 1, 86400)]) (Some [(1, 1, 2)]) [(3, [])]).
+Proof.
+  split; [|vm_compute; reflexivity].
+  split; [|split; [|vm_compute; discriminate]];
+    repeat (first [apply Forall_nil | apply Forall_cons | split]); cbn [cap_wf fam3_ok fst snd];
+    repeat (first [apply Forall_nil | apply Forall_cons | split]); cbn [fst snd In known_families assigned_codes];
+    try lia; try tauto; try (unfold tlv_fits; vm_compute; discriminate);
+    try (intros K; repeat destruct K as [K|K]; try discriminate K; contradiction).
+Qed.
+
+(** Open.construct emits exactly the reference encoding of its configuration, one capability per
+    optional parameter, in the order MP*, 128, 2, 65, 5, 69, 70 (used by C05/C08) *)
+Theorem C14_open_construct_is_reference : forall asn hold id c m,
+  open_construct 4 asn hold id c = Ok m ->
+  m = ref_open 4 (open_asn_field asn) hold id (one_per_param (cfg_caps asn c)) /\
+  params_wf (one_per_param (cfg_caps asn c)) /\ hold <= 65535 /\ id <= 4294967295.
+Proof. exact open_construct_is_reference. Qed.
+Print Assumptions C14_open_construct_is_reference.
+
+(** Facts for C05.  (1) the My-AS field is asn when asn <= 65535, else AS_TRANS = 23456, and then
+    capability 65 carries asn; below 65536 capability 65 is sent iff 'four_bytes_as' is configured;
+    no capability 65 ever carries another number. *)
+Theorem C14_open_my_as_field : forall asn hold id c m,
+  open_construct 4 asn hold id c = Ok m ->
+  m = ref_open 4 (if asn <=? 65535 then asn else 23456) hold id (one_per_param (cfg_caps asn c)) /\
+  (65535 < asn -> In (As4 asn) (cfg_caps asn c)) /\
+  (asn <= 65535 -> (In (As4 asn) (cfg_caps asn c) <-> cc_four c = true)) /\
+  (forall a, In (As4 a) (cfg_caps asn c) -> a = asn).
+Proof. exact open_my_as_field. Qed.
+Print Assumptions C14_open_my_as_field.
+
+(** (2) the AS number Open.parse reports is the 4-octet value of the (last) capability 65 when one
+    is present, else the My-AS field; 'four_bytes_as' is set iff a capability 65 is present *)
+Theorem C14_open_parsed_asn_is_as4 : forall my_as cs a cs',
+  forallb (fun c => negb (is_as4 c)) cs' = true ->
+  fst (decode_caps my_as (cs ++ As4 a :: cs')) = a.
+Proof. exact parsed_asn_is_as4. Qed.
+Print Assumptions C14_open_parsed_asn_is_as4.
+
+Theorem C14_open_parsed_asn_without_as4 : forall my_as cs,
+  forallb (fun c => negb (is_as4 c)) cs = true ->
+  fst (decode_caps my_as cs) = my_as /\ cd_four (snd (decode_caps my_as cs)) = false.
+Proof. exact parsed_asn_no_as4. Qed.
+Print Assumptions C14_open_parsed_asn_without_as4.
+
+Theorem C14_open_four_bytes_as_iff : forall my_as cs,
+  cd_four (snd (decode_caps my_as cs)) = true <-> exists a, In (As4 a) cs.
+Proof. exact parsed_four_iff. Qed.
+Print Assumptions C14_open_four_bytes_as_iff.
+
+(** the fuel [open_parse] gives its two loops is enough for every input: the distinguished
+    out-of-fuel value is never returned (the loops of Open.parse terminate) *)
+Theorem C14_open_parse_fuel_suffices : forall b m, open_parse_gen b m <> OutOfFuel.
+Proof. exact open_parse_fuel_ok. Qed.
+Print Assumptions C14_open_parse_fuel_suffices.
